@@ -209,6 +209,70 @@ def case_slice1dint(ctx, inp):
         ctx.branch("int-later-block")
 
 
+def case_slicend(ctx, inp):
+    """slice_slices_and_integers on a normalised N-d index of slices and integers: the tasks (out key -> in key,
+    per-axis block index) and the new blockdims vs the Lean model `SliceND.tasks` / `newBlockdims`; the real graph
+    executed block by block on NumPy and assembled with the declared blockdims = NumPy's x[index]."""
+    import numpy as np
+    from dask.array.slicing import normalize_index, slice_slices_and_integers
+    chunks = [list(c) for c in inp["chunks"]]
+    shape = tuple(sum(c) for c in chunks)
+    raw = tuple(slice(*v) if k == "slice" else int(v) for k, v in inp["index"])
+    index = normalize_index(raw, shape)
+    dsk, bd = slice_slices_and_integers("out", "in", tuple(tuple(c) for c in chunks), index, bool(inp.get("opt")))
+    enc = [[Sym("sl"), enc_slice(i)] if isinstance(i, slice) else [Sym("int"), int(i)] for i in index]
+    model = unsym(ctx.lean(Sym("slicend"), chunks, enc))
+    impl_tasks = []
+    for key, t in dsk.items():
+        if hasattr(t, "args"):
+            in_key, sl = t.args[0].key, t.args[1]
+        else:                      # Alias (allow_getitem_optimization): the block itself
+            in_key, sl = t.target.key if hasattr(t.target, "key") else t.target, tuple(slice(None) for _ in chunks)
+        impl_tasks.append([[int(v) for v in key[1:]], [int(v) for v in in_key[1:]],
+                           [["sl", canon_slice(b)] if isinstance(b, slice) else ["int", int(b)] for b in sl]])
+    ctx.eq("slice_slices_and_integers", model, ["ok", impl_tasks, [[int(v) for v in b] for b in bd]])
+    # property oracle on the real graph
+    x = np.arange(int(np.prod(shape))).reshape(shape) * 3 + 1
+    exp = x[raw]
+    if tuple(sum(b) for b in bd) != exp.shape:
+        ctx.fail("new blockdims do not sum to NumPy's result shape", observed=[list(b) for b in bd], expected=list(exp.shape))
+        return
+    out = np.full(exp.shape, -1)
+    offs = [[sum(b[:i]) for i in range(len(b))] for b in bd]
+    cb = [_cum_before(c) for c in chunks]
+    seen = set()
+    for okey, ikey, sl in impl_tasks:
+        blk = x[tuple(slice(cb[a][k], cb[a][k] + chunks[a][k]) for a, k in enumerate(ikey))]
+        piece = blk[tuple(slice(*v) if kind == "sl" else v for kind, v in sl)]
+        if tuple(okey) in seen or any(o >= len(b) for o, b in zip(okey, bd)):
+            ctx.fail("output key duplicated or outside the declared block grid", observed=okey)
+            return
+        seen.add(tuple(okey))
+        want = tuple(bd[a][o] for a, o in enumerate(okey))
+        if piece.shape != want:
+            ctx.fail("computed block shape differs from the declared chunks", observed=[okey, list(piece.shape)], expected=list(want))
+            return
+        out[tuple(slice(offs[a][o], offs[a][o] + bd[a][o]) for a, o in enumerate(okey))] = piece
+    nblocks = 1
+    for b in bd:
+        nblocks *= len(b)
+    if len(seen) != nblocks:
+        ctx.fail("the graph does not have one task per output block", observed=len(seen), expected=nblocks)
+        return
+    if (out != exp).any():
+        ctx.fail("the graph of slice_slices_and_integers does not assemble to NumPy's x[index]", observed=out.tolist(),
+                 expected=exp.tolist())
+    ctx.branch("slicend-%dd" % len(chunks))
+    if any(k == "int" for k, _ in inp["index"]):
+        ctx.branch("slicend-int-axis")
+    if sum(1 for k, v in inp["index"] if k == "slice" and (v[2] or 1) < 0) >= 2:
+        ctx.branch("slicend-two-negative-steps")
+    if any(k == "slice" and (v[2] or 1) < 0 for k, v in inp["index"]) and len(impl_tasks) > 1:
+        ctx.branch("slicend-negstep-multiblock")
+    if inp.get("opt"):
+        ctx.branch("slicend-getitem-optimization")
+
+
 def case_normidx(ctx, inp):
     """normalize_index (replace_ellipsis, padding with colons, check_index, normalize_slice, posify) on a basic /
     integer-list index: entry by entry against the Lean per-axis functions, errors as NumPy raises them."""
@@ -803,7 +867,7 @@ def case_blocks(ctx, inp):
     ctx.branch("blocks")
 
 
-CASES = {"exotic": case_exotic, "maskfull": case_maskfull, "normidx": case_normidx, "take": case_take, "pyslice": case_pyslice, "norm": case_norm, "slice1d": case_slice1d, "slice1dint": case_slice1dint,
+CASES = {"exotic": case_exotic, "maskfull": case_maskfull, "normidx": case_normidx, "take": case_take, "pyslice": case_pyslice, "norm": case_norm, "slice1d": case_slice1d, "slice1dint": case_slice1dint, "slicend": case_slicend,
          "api1d": case_api1d, "apind": case_apind, "vindex": case_vindex, "blocks": case_blocks}
 
 
@@ -914,6 +978,26 @@ def generate(ctx):
         v = [None] + list(range(-n - 2, n + 3))
         yield "slice1d", {"lengths": list(lengths), "s": [rng.choice(v), rng.choice(v), rng.choice([None, 0, 1, 2, 3, -1, -2, -3])],
                           "raw": True}
+    # (2a') slice_slices_and_integers: the N-d product of the per-axis plans (tasks, block grid, blockdims)
+    for n0 in range(1, 4):
+        for c0 in compositions(n0):
+            for c1 in compositions(2):
+                for s0 in _all_slices(n0):
+                    if rng.random() < (0.01 if not thorough else 0.2):
+                        yield "slicend", {"chunks": [list(c0), list(c1)], "index": [("slice", s0), rng.choice(
+                            [("slice", [None, None, -1]), ("int", rng.randrange(-2, 2)), ("slice", [1, None, None])])]}
+    for _ in range(ctx.n(260, 5000)):
+        nd = rng.randint(1, 3)
+        chunks = [list(random_chunks(rng, rng.randint(1, 7), zeros=0.15)) for _ in range(nd)]
+        index = []
+        for c in chunks:
+            n = sum(c)
+            if rng.random() < 0.25:
+                index.append(("int", rng.randrange(-n, n)))
+            else:
+                v = [None] + list(range(-n - 2, n + 3))
+                index.append(("slice", [rng.choice(v), rng.choice(v), rng.choice([None, 1, 2, 3, -1, -2, -3, n, -n])]))
+        yield "slicend", {"chunks": chunks, "index": index, "opt": rng.random() < 0.3}
     # (2b) take: near-identity indexers for every chunking of small axes (function level, real graph executed)
     for n in range(1, 6):
         full = _sorted_full_length(n)
